@@ -258,8 +258,9 @@ class VDict(V):
 
 class VChunks(V):
     """A list of byte strings that is only ever observed through b''.join (its flattening)."""
-    def __init__(self, flat):
+    def __init__(self, flat, items=None):
         self.flat = flat
+        self.items = items          # element terms while the list is still exactly its display
     def __repr__(self): return 'VChunks(%s)' % self.flat
 
 
@@ -305,9 +306,15 @@ class VPyConst(V):
     def __init__(self, obj): self.obj = obj
 
 
+class VEnum(V):
+    """enumerate(<symbolic list>)"""
+    def __init__(self, lst): self.lst = lst
+
+
 class VExc(V):
-    def __init__(self, cls, args=(), fields=None):
+    def __init__(self, cls, args=(), fields=None, implicit=False):
         self.cls, self.args, self.fields = cls, list(args), fields or {}
+        self.implicit = implicit     # raised by a modelled primitive (IndexError, AttributeError on None, ...)
     def __repr__(self): return 'VExc(%s)' % self.cls.__name__
 
 
